@@ -204,6 +204,9 @@ def iterUntil (body cleanup : HSt → Option HSt) (ef : Val) (ev : Int) (h : Nat
       match body s with
       | none => none
       | some s1 =>
+        match s1.hregs h with
+        | none => none
+        | some _ =>
         match evalVal s1 ef with
         | none => none
         | some v =>
